@@ -4,15 +4,27 @@ import (
 	"time"
 
 	"github.com/rulego/streamsql"
+	"github.com/rulego/streamsql/schema"
 )
 
 // runRowQuery executes a non-aggregating query on one row through EmitSync.
 // ok=false when Execute failed.
 func runRowQuery(sql string, row map[string]interface{}) (out map[string]interface{}, execErr error, emitErr error) {
-	s := streamsql.New(presetOpt(), streamsql.WithDiscardLog())
+	opts := []streamsql.Option{presetOpt(), streamsql.WithDiscardLog()}
+	if curNoise {
+		// an input schema that says nothing about the query's columns; a row that it rejects (wrong type for zt) and that
+		// carries text in every column the queries read goes first — the observed row is judged on its own
+		opts = append(opts, streamsql.WithSchema(schema.Schema{Name: "noise", Fields: []schema.FieldDef{{Name: "zt", Type: schema.TypeFloat}}}))
+	}
+	s := streamsql.New(opts...)
 	defer s.Stop()
 	if err := s.Execute(sql); err != nil {
 		return nil, err, nil
+	}
+	if curNoise {
+		leak := map[string]interface{}{"zt": "bad", "id": "leak", "x": "leak", "y": "leak", "k": "leak", "name": "leak", "v": "leak",
+			"b": map[string]interface{}{"x": "leak"}, "a": map[string]interface{}{"b": map[string]interface{}{"x": "leak"}}}
+		_, _ = s.EmitSync(leak)
 	}
 	out, err := s.EmitSync(row)
 	return out, nil, err
